@@ -17,6 +17,6 @@ after=$(md5sum "$wt/$file" | cut -d' ' -f1)
 (cd "$wt" && go build ./... 2>&1 | head -5) | grep -q . && { echo "mutant does not compile"; exit 2; }
 # obligations recorded as known findings fail on the unchanged tree too: not counted
 known=$(grep '^finding:' /verif/KNOWN_FINDINGS | grep -o 'obligation=[^ ]*' | cut -d= -f2 | sort -u | tr '\n' '|' | sed 's/|$//')
-out=$(/verif/bin/gowp func -repo "$wt" "$@" 2>&1 | grep -v "^ok" | grep "FAIL\|ENGINE-ERROR\|unsupported" | { if [ -n "$known" ]; then grep -v -E "$known"; else cat; fi; } | cut -c1-150)
+out=$(${GOWP:-/verif/bin/gowp} func -repo "$wt" "$@" 2>&1 | grep -v "^ok" | grep "FAIL\|ENGINE-ERROR\|unsupported" | { if [ -n "$known" ]; then grep -v -E "$known"; else cat; fi; } | cut -c1-150)
 if [ -n "$out" ]; then echo "$out" | head -8; echo "KILLED"; exit 0; fi
 echo "SURVIVED"; exit 1
